@@ -13,8 +13,10 @@ import (
 )
 
 const EOF = -1
-const whitespace1 = 1<<'\t' | 1<<' '
-const whitespace2 = 1<<'\t' | 1<<'\n' | 1<<'\r' | 1<<' '
+
+// blank space is what C's isspace accepts: form feed and vertical tab count too
+const whitespace1 = 1<<'\t' | 1<<'\v' | 1<<'\f' | 1<<' '
+const whitespace2 = 1<<'\t' | 1<<'\v' | 1<<'\f' | 1<<'\n' | 1<<'\r' | 1<<' '
 
 type Error struct {
 	Pos     ast.Position
